@@ -20,7 +20,7 @@ PROPS = {
    assumptions=["the optional 'dep user precedes consumer' link (recorded by the pool only when the consumer arrives second) is accepted but not required", "RBF admission arithmetic (fee >= replaced fees + min_rbf_rate*size) is exercised but asserted only through pool consistency (no double spend, replaced set gone), not re-derived per replacement"]),
  "C12": dict(quick=600, thorough=40000,
    rule="one evaluation = one simulated run interleaving submissions (suspended at yield points inside _process_tx), block templates mined on the node, and model-built competing branches that commit/propose the same candidate transactions, with reorg notifications queued and processed at simulator-chosen moments; at every quiescent point (all tasks done, pool snapshot == chain tip): no pooled tx is committed on the main chain, every input/dep is live in the model's live-cell set or created by a pooled tx, no cell is spent twice in the pool, and each entry's stage equals the model's proposal-window membership (mining node). non-trivial as C11",
-   assumptions=["'still admissible detached transactions are back in the pool' is not asserted (fee/size/ancestor policy makes the expected set ambiguous); the converse direction (nothing stale, dead or lost-parent) is", "header deps are not generated"]),
+   assumptions=["'still admissible detached transactions are back in the pool' is asserted only where admissibility is unambiguous: the reorganisation starts from a pool at rest and is followed by a quiescent point with nothing in between, the pool has no size limit and an ancestor limit out of reach, every input and dep of the returning transaction is live on the new chain, it has no time lock or cellbase input, pays at least twice the minimum fee and nothing else spends its inputs (probes detached_admissible_tx_checked / detached_tx_admissibility_ambiguous)", "one run in three uses the clean-detach configuration"]),
  "C13": dict(quick=500, thorough=30000,
    rule="one evaluation = one simulated run as C12; every Mine op requests a template at that instant (block-assembler updates possibly still queued), seals it and feeds it to the node's own insert/preload/verify stages: the verdict must be Ok and, when the template names the current tip, the block must become the tip; transactions must appear parents-first; the reference model independently re-derives epoch, reward, DAO, chain root, window, uncle rules and the size / cycle / proposal limits of every template block; two runs out of five use consensus limits small enough (1.2-4 KB, 2-8 script groups, 1-6 proposals) for the block assembler's accounting to decide what fits (probes template_at_*_limit). non-trivial as C11",
    assumptions=["templates that name a stale parent are stored as side blocks and therefore NOT verified by the node (probes.stale_templates_not_verified); for those the reference model alone judges validity on the named parent (class stale_parent_template_invalid) - the same model is cross-checked against the node on every on-tip template", "HeaderVerifier (timestamp/PoW) is not part of the pipeline here"]),
